@@ -1,8 +1,10 @@
+mod c06;
 mod c11;
 mod c12;
 mod c13;
 mod c16;
 mod c17;
+mod expand;
 mod extract;
 mod model;
 mod report;
@@ -19,6 +21,7 @@ fn main() {
     tool::install_panic_hook();
     match args[0].as_str() {
         "extract" => extract::main(&args[1..]),
+        "C06" => c06::main(&args[1..]),
         "C11" => c11::main(&args[1..]),
         "C12" => c12::main(&args[1..]),
         "C13" => c13::main(&args[1..]),
